@@ -166,7 +166,7 @@ def setup(E, shape):
             ctx.trials.append(dict(it=iterate, rho=rho, dt=dt, lam=lam, rec=rec, acc=False, nxt=iterate, srho=solver.rho, failed=True))
             return SCR(iterate, lam, None, None, False)
         acc = E.fresh_bool(f"oacc{k}_")
-        accb = bool(acc)
+        accb = True if shape.get("always_accept") else bool(acc)  # shape option: runs of accepted steps only (deeper K)
         nxt = Iterate(prob, params, arr(xs), arr(ys), iterate.eval)
         ctx.trials.append(dict(it=iterate, rho=rho, dt=dt, lam=lam, rec=rec, acc=accb, nxt=nxt, srho=solver.rho))
         return SCR(nxt, lam, None, None, accb)
@@ -423,6 +423,30 @@ def h_loop(E, shape):
             return
         ctx.final_iterate = fin[-1]
     check(ctx)
+    if shape.get("deriv_check") and shape.get("second_solve") and not ctx.aborted:
+        # C19 "for every starting point": the same Solver asked to solve again from another start point
+        # checks the derivatives THERE as well (its finite differences need the objective at x0' + h e_j)
+        spec, p = ctx.spec, ctx.params
+        x1 = []
+        for j in range(spec["n"]):
+            v = E.real(f"x1_{j}")
+            E.assume(land(spec["xl"][j] <= v, v <= spec["xu"][j]))
+            x1.append(v)
+        nc = len(spec["calls"])
+        p.iteration_limit = 0
+        rejected = False
+        try:
+            ctx.solver.solve(arr(x1), arr(ctx.y0) if spec["m"] else None)
+        except Exception as e:
+            if type(e).__name__ != "DerivError":
+                raise
+            rejected = True  # the check ran (and stops at the first wrong column)
+        probes = [xs for (kind, xs, ys, site) in spec["calls"][nc:] if kind == "obj"]
+        ok = True
+        for j in range(spec["n"]):
+            want = [x1[i] + (p.deriv_pert if i == j else 0.0) for i in range(spec["n"])]
+            ok = land(ok, lor(False, *[common.eq_all(xs, want) for xs in probes]))
+        E.prove(True if rejected else ok, "C19.every_solve_checks_the_derivatives_at_its_own_start_point")
 
 
 def loop_tasks(combos, K, opts=None):
@@ -432,7 +456,7 @@ def loop_tasks(combos, K, opts=None):
         if c.get("policy") in HEAVY and c.get("cons") and K > 2:
             Kc = 2  # 15 k paths / 20 min single core at K=3 (measured): these two policies stay at K=2
         sh = dict(K=Kc, policy=c.get("policy", "DualNorm"), vars=c.get("vars", ["boxed"]), cons=c.get("cons", []))
-        for k in ("limit", "time_limit", "collect_path", "fmt", "deriv_check", "start_faults", "policy_cb", "scaling", "step_failures", "x0_outside", "start_point_faults"):
+        for k in ("limit", "time_limit", "collect_path", "fmt", "deriv_check", "start_faults", "policy_cb", "scaling", "step_failures", "x0_outside", "start_point_faults", "always_accept", "second_solve"):
             if k in c:
                 sh[k] = c[k]
         o = dict(mulmode="uf", timeout_ms=20000)
